@@ -37,11 +37,18 @@ def monitor1(ctx, hooks, rng):
 
     sr = ctx.sr
     r_ = rng.random()
-    if r_ < 0.3:
+    if r_ < 0.15:
         fam = c15ops.prefused_extent_family(sr, rng)
         if len(fam) < 2:
             return
         ctx.count("m1", "prefused-extent-families")
+    elif r_ < 0.3:
+        fam = c15ops.nested_chain_family(sr, rng)
+        fam = [(t, x) for t, x in fam if t.endswith("depth2")] if rng.random() < 0.5 else fam
+        if len(fam) < 2:
+            return
+        fam = fam + [tw for tw in ((("stripped:" + t), c15ops.stripped_twin(sr, x)) for t, x in fam[:2]) if tw[1] is not None]
+        ctx.count("m1", "nested-chain-families")
     else:
         fam = c15ops.family(sr, rng) + (c15ops.subindex_twins(sr, rng) if r_ < 0.65 else [])
     cs = rng.choice([1, 2, 3, 8192])
@@ -80,9 +87,9 @@ def monitor2(ctx, hooks, seed, n):
     # (a) cold: cache disabled, every cache cleared before each op
     hooks.set_cache(maxsize=0, clear=True)
     cold = []
-    for desc, fn in ops:
+    for op in ops:
         hooks.clear_all_caches()
-        cold.append(c15ops.run_ops([(desc, fn)])[0])
+        cold.append(c15ops.run_ops([op])[0])
     results["cold"] = cold
     for name, size in (("warm", 8192), ("evicting-1", 1), ("evicting-2", 2)):
         hooks.set_cache(maxsize=size, maxsectors=512, clear=(name == "warm"))
@@ -225,6 +232,8 @@ class YieldInjector:
         self.prob = prob
         self.count = 0
         self.in_fuse = 0
+        self.in_hashkey = 0
+        self.pause = False
         self.sites = set()
         self.trace = []
         self.local = threading.local()
@@ -241,12 +250,17 @@ class YieldInjector:
             fn = code.co_filename
             if not fn.startswith(prefix):
                 return mon.DISABLE
+            if inj.pause:
+                return
             st = inj.local
             r = getattr(st, "rng", None)
             if r is None:
                 r = st.rng = random.Random(f"{inj.seed}:{threading.get_ident()}")
-            if r.random() < inj.prob:
+            hk = code.co_name == "hashkey"
+            if r.random() < (0.5 if hk else inj.prob):
                 inj.count += 1
+                if hk:
+                    inj.in_hashkey += 1
                 inj.sites.add((fn[len(prefix) :], line))
                 if code.co_name in ("cached_fuse_block_info", "_fuse_core", "calc_fuse_block_info", "_fuse_blocks_via_insert", "hashkey"):
                     inj.in_fuse += 1
@@ -266,6 +280,13 @@ class YieldInjector:
 
 
 def monitor4(ctx, hooks, seed, nthreads, nops, rounds):
+    """Rounds alternate between two set-ups.
+    shared-hashed: the operands were already used by the sequential reference (their index
+      hash keys are memoised); cache of size 2 (constant eviction).
+    fresh-objects: operands rebuilt for the round (equal values, brand-new index objects whose
+      hash keys have never been computed); the cache is large and pre-warmed sequentially with
+      the ops on the 'stripped' twins only; every thread starts with the same ops on the
+      fused-leg operands, so first-time memoisation happens concurrently."""
     from symv.load import REPO
 
     sr = ctx.sr
@@ -273,21 +294,42 @@ def monitor4(ctx, hooks, seed, nthreads, nops, rounds):
     snaps = [snapshot(x) for _, x in arrays]
     hooks.set_cache(maxsize=8192, maxsectors=512, clear=True)
     ref = c15ops.run_ops(ops)
-    hooks.set_cache(maxsize=2, maxsectors=512, clear=True)
     old_si = sys.getswitchinterval()
     sys.setswitchinterval(1e-6)
     inj = YieldInjector(os.path.join(REPO, "symmray") + os.sep, 0.05, seed)
     errors = []
     mism = []
+    changed = []
     inj.start()
     try:
-        for rd in range(rounds):
+        for rd in range(rounds * 2):
+            fresh = rd % 2 == 1
+            if fresh:
+                inj.pause = True
+                hooks.set_cache(maxsize=8192, maxsectors=512, clear=True)
+                r_arrays, r_ops = c15ops.make_ops(sr, seed, nops)
+                r_snaps = [snapshot(x) for _, x in r_arrays]  # snapshot() does not touch hashkey()
+                hooks.set_cache(maxsize=8192, maxsectors=512, clear=True)
+                warm = [k for k, op in enumerate(r_ops) if op[2].startswith("stripped:")]
+                for k in warm:
+                    try:
+                        r_ops[k][1]()
+                    except Exception:
+                        pass
+                first = [k for k, op in enumerate(r_ops) if ("stripped:" + op[2]) in {o[2] for o in r_ops}]
+                inj.pause = False
+                ctx.count("m4", "fresh-object-rounds")
+                ctx.count("m4", "fresh-round-first-ops-on-fused-legs", len(first))
+            else:
+                r_arrays, r_ops, r_snaps, first = arrays, ops, snaps, []
+                hooks.set_cache(maxsize=2, maxsectors=512, clear=True)
             start = threading.Barrier(nthreads)
 
-            def work(tid):
+            def work(tid, r_ops=r_ops, first=first):
                 r = random.Random(f"{seed}:{rd}:{tid}")
-                order = list(range(len(ops)))
-                r.shuffle(order)
+                rest = [k for k in range(len(r_ops)) if k not in set(first)]
+                r.shuffle(rest)
+                order = list(first) + rest
                 try:
                     start.wait(timeout=30)
                 except threading.BrokenBarrierError:
@@ -295,14 +337,14 @@ def monitor4(ctx, hooks, seed, nthreads, nops, rounds):
                 for i in order:
                     c0 = inj.in_fuse
                     try:
-                        d = c15ops.result_digest(ops[i][1]())
+                        d = c15ops.result_digest(r_ops[i][1]())
                     except Exception as e:
                         d = f"raise:{type(e).__name__}"
                         if d != ref[i]:
-                            errors.append((tid, ops[i][0], repr(e)))
+                            errors.append((tid, r_ops[i][0], repr(e), fresh))
                             continue
                     if d != ref[i]:
-                        mism.append((tid, i))
+                        mism.append((tid, i, fresh))
                     ctx_counts.append(inj.in_fuse > c0)
 
             ctx_counts = []
@@ -321,20 +363,23 @@ def monitor4(ctx, hooks, seed, nthreads, nops, rounds):
             tids = {t: k for k, t in enumerate(dict.fromkeys(sig))}
             ctx.nontrivial(("m4", seed, rd, tuple(tids[t] for t in sig)))
             inj.trace.clear()
+            if [snapshot(x) for _, x in r_arrays] != r_snaps:
+                changed.append(fresh)
     finally:
         inj.stop()
         sys.setswitchinterval(old_si)
     ctx.count("m4", "injected-switches", inj.count)
     ctx.count("m4", "switches-in-fuse-path", inj.in_fuse)
+    ctx.count("m4", "switches-in-hashkey", inj.in_hashkey)
     ctx.count("m4", "distinct-switch-sites", len(inj.sites))
     ctx.count("m4", f"threads={nthreads}")
-    for tid, desc, e in errors[:3]:
-        ctx.violation("thread-raises", f"thread {tid}: {desc} raised {e} under concurrency (the sequential reference did not)", {"seed": seed, "op": desc})
-    for tid, i in mism[:3]:
-        ctx.violation("concurrent-result-differs", f"thread {tid}: op #{i} {ops[i][0]} returned a different result than the sequential evaluation", {"seed": seed, "op": ops[i][0], "threads": nthreads})
-    if [snapshot(x) for _, x in arrays] != snaps:
+    for tid, desc, e, fresh in errors[:3]:
+        ctx.violation("thread-raises", f"thread {tid}: {desc} raised {e} under concurrency (the sequential reference did not); {'fresh-object' if fresh else 'shared-hashed'} round", {"seed": seed, "op": desc})
+    for tid, i, fresh in mism[:3]:
+        ctx.violation("concurrent-result-differs", f"thread {tid}: op #{i} {ops[i][0]} returned a different result than the sequential evaluation ({'fresh-object' if fresh else 'shared-hashed'} round)", {"seed": seed, "op": ops[i][0], "threads": nthreads})
+    if changed:
         ctx.violation("shared-operand-changed", "a shared operand was modified by concurrent out-of-place calls", {"seed": seed})
-    ctx.sample({"monitor": "threads", "threads": nthreads, "ops": len(ops), "rounds": rounds, "injected_switches": inj.count, "switches_in_fuse_path": inj.in_fuse, "distinct_switch_sites": len(inj.sites), "mismatches": len(mism), "exceptions": len(errors)}, limit=2)
+    ctx.sample({"monitor": "threads", "threads": nthreads, "ops": len(ops), "rounds": rounds * 2, "injected_switches": inj.count, "switches_in_fuse_path": inj.in_fuse, "switches_in_hashkey": inj.in_hashkey, "distinct_switch_sites": len(inj.sites), "mismatches": len(mism)}, limit=2)
 
 
 def monitor5_repo_tests(ctx):
